@@ -203,6 +203,7 @@ namespace xsv
         for (const char* n : { "bb_xor", "bb_ne", "bb_fxor", "bb_xor_assign" })
             def_bb(n, 2, jb2<b_xor>);
         def_bb("bb_eq", 2, jb2<b_eq>);
+        def_bb("bb_broadcast", 1, jb1<b_id>); // batch_bool(bool): the shim returns lane l of batch_bool(in[l])
         def_bb("bb_andnot", 2, jb2<b_andnot>);
         for (const char* n : { "bb_not", "bb_lnot", "bb_fnot" })
             def_bb(n, 1, jb1<b_not>);
